@@ -21,6 +21,7 @@ CONSTANTS NStyles,    \* number of style ids ("s1" .. "sN")
                       \*            before; the change made to the copy afterwards does not reach the source);
                       \*   "alias": Load, Resolve, ToXML, Info for every registry in which some style is based on an
                       \*            alias of a style, queried for every style id and every alias that occurs
+                      \*   "xml":   LoadXML (each loader), Resolve, ToXML, Info: every registry as a styles part
           CloneReads, \* "rmr": the operations through which the copy is read for the first time (one behaviour each)
           Depth,      \* SpecGen: behaviour length
           OpNames     \* SpecMC/SpecGen: operation names explored
@@ -48,6 +49,10 @@ BaseOps ==
         THEN {[op |-> "Edit", s |-> i, b |-> b, x |-> x, y |-> y] : i \in Ids, b \in BsA \cup {"keep"}, x \in BOOLEAN, y \in YB} ELSE {})
   \cup {[op |-> n, q |-> q] : n \in OpNames \cap {"Resolve", "ToXML", "Info", "MutRes"}, q \in QsA}
   \cup {[op |-> n] : n \in OpNames \cap (CloneOps \cup {"List"})}
+  \* a styles part that defines one style, through each of the loaders
+  \cup (IF "LoadXML" \in OpNames
+        THEN {[op |-> "LoadXML", how |-> h, defs |-> <<[s |-> i, b |-> b, x |-> x, y |-> (TwoSlots /\ ~x)]>>] :
+                 h \in XmlHows, i \in Ids, b \in Bs, x \in BOOLEAN} ELSE {})
 \* ... and on the pair: take a copy; address an operation to the copy
 OpsOf(s) ==
        BaseOps
@@ -178,6 +183,9 @@ InitEnum ==
             /\ \E bs \in [Ids -> Bs], q \in Ids, mu \in MutOpsEnum(m), r \in CloneReads : hist = RmrOf(bs, xs, ys, q, mu, r)
          \/ /\ Plans \cap {"plain", "clone"} # {}
             /\ \E bs \in [Ids -> Bs], q \in Qs : hist = CaseOf(bs, xs, ys, q)
+         \/ /\ "xml" \in Plans
+            /\ \E bs \in [Ids -> Bs], q \in Ids, h \in XmlHows :
+                  hist = <<[op |-> "LoadXML", how |-> h, defs |-> LoadOf(bs, xs, ys).defs]>> \o Tail(PlainOf(bs, xs, ys, q))
          \/ /\ "alias" \in Plans
             /\ \E bs \in AliasGraphs : \E q \in Ids \cup {bs[i] : i \in {j \in Ids : bs[j] \in Als}} :
                   hist = PlainOf(bs, xs, ys, q)
